@@ -214,6 +214,12 @@ def hard_match_table(u, fn):
                         return "NAME"
                     if base.get("kind") == "MemberExpr" and base.get("name") == "arg_spec":
                         return 0
+                    obj_ = ev.ev(A.kids(n)[1])
+                    if obj_ == "NAME":                       # name[i] on the std::string
+                        i_ = ev.ev(A.kids(n)[2])
+                        if not 0 <= i_ <= len(name):
+                            raise FD.Unknown("std::string index out of range", n)
+                        return ord(name[i_]) if i_ < len(name) else 0
                 if k == "CXXMemberCallExpr":
                     callee = A.strip_casts(A.kids(n)[0])
                     if callee.get("kind") == "MemberExpr" and A.kids(callee):
@@ -415,7 +421,7 @@ def run(ctx):
         esc = FL.escapes(f, a, nuls, port_cbs_loc)
         ctx.ob("R04.2", "append@%s NUL-terminated" % a.line, esc is None, site=a.where(),
                what="bytes appended to d.loc at %s can reach the callback at %s without a terminating NUL" % (a.where(), esc.where() if esc is not None else ""))
-    ctx.require(len(appends) >= 3, "Ports::dispatch: only %d byte-wise appends to d.loc found" % len(appends))
+    ctx.require(len(appends) >= 1, "Ports::dispatch: no byte-wise append to d.loc found (%d)" % len(appends))   # how many loops append is the code's business
 
     # ---- R04.4
     matcher_clone_obligations(ctx, "R04.4")
@@ -516,6 +522,10 @@ def run(ctx):
     for tv in range(4):
         for dh in (0, 1):
             def hook(n, ev, dh=dh):
+                if n.get("kind") == "DeclRefExpr" and (n.get("referencedDecl") or {}).get("kind") == "VarDecl" and n["referencedDecl"]["id"] not in ev.env:
+                    d_ = u.by_id.get(n["referencedDecl"]["id"])      # a const local (`remap_size`, `port_num`): its initialiser
+                    if d_ is not None and A.kids(d_):
+                        return ev.ev(A.kids(d_)[-1])
                 if n.get("kind") == "CXXMemberCallExpr":
                     nm = A.strip_casts(A.kids(n)[0]).get("name")
                     if nm in ("size", "length"):
